@@ -25,7 +25,8 @@ REQUIRED = ['keeps_direct_seats', 'house_grows_by_adj', 'house_grows_by_adj_of_f
             'level_cty_direct_seat_counted', 'level_cty_at_is_least', 'level_cty_default_is_least', 'lrHareEval_fills', 'house_grows_by_adj_lr',
             'level_least_enlargement_ha', 'level_least_enlargement_lr', 'multistage_final_is_proportional',
             'level_terminates_lr', 'level_final_is_proportional_lr', 'level_terminates_of_adequate',
-            'level_cty_final_party_totals', 'partyVotes_ok']
+            'level_cty_final_party_totals', 'partyVotes_ok', 'level_cty_refuses_tie', 'level_cty_ok_no_tie',
+            'level_cty_tie_witness', 'level_cty_terminates']
 NAME_MODES = ['str', 'int0', 'empty0', 'person']
 REQUIRED_COUNTERS = ['overhang_present', 'no_overhang', 'party_outside_tier', 'party_without_votes',
                      'levelling_iterations_ge2', 'by_constituency', 'multistage_wrapped',
@@ -36,7 +37,8 @@ REQUIRED_COUNTERS = ['overhang_present', 'no_overhang', 'party_outside_tier', 'p
                      'shared_evaluator', 'separate_evaluators', 'two_elections', 'second_after_refusal',
                      'other_configuration_first', 'zero_direct_and_seatless_voter', 'two_zero_vote_parties',
                      'house_0', 'house_1', 'house_below_direct', 'many_wasted_votes', 'multistage_3stages',
-                     'multistage_3stages_depth2', 'allocator_default', 'apportioner_int']
+                     'multistage_3stages_depth2', 'allocator_default', 'apportioner_int',
+                     'cty_tie_in_constituency', 'cty_tie_floor_unreachable']
 RULE = ('second-vote dicts over 2-6 parties: tie-forcing small sets, zero-vote parties (also two or more, also all), ints up to '
         '10^30 incl. 2^53+-1 and near ties (v, v+1), Fractions, every value as a Fraction object (12 %), exact ties at the '
         'levelling boundary scaled to 10^18 / 10^30 / thirds / sevenths and between parties with different votes a*K, b*K; '
@@ -91,9 +93,14 @@ UNPROVED = [
     '(final_not_proportional / house_size clauses on the by-constituency cases)',
     'level_final_is_proportional with a Tie in the enlarged house, or with parties without votes (HighestAverages '
     'version needs positive votes)',
-    'termination when the baseline result contains a Tie key: neither a proof nor a non-terminating input found '
-    '(exhaustive {1..7}^<=3, {1..5}^4, houses <= 7, three evaluators); level_terminates_of_adequate reduces it to the '
-    'existence of one adequate house size; the fuel hypothesis stays',
+    'termination of the FLAT LevelOverhang when the baseline result contains a Tie key: no diverging input exists in '
+    'the exhaustive scopes ({1..7}^<=3, {1..5}^4, houses <= 7, three evaluators) and there is an informal argument '
+    '(a tie group of rational quotients recurs with the same members at infinitely many levels q/k, Hare remainders are '
+    'periodic in the house size), not formalised: level_terminates_of_adequate reduces it to one adequate house size and '
+    'the fuel hypothesis stays there.  The by-constituency variant DID diverge on tie floors (finding '
+    'C15-by-constituency-tie-floor-nontermination); with the repair ties are refused (level_cty_refuses_tie) and '
+    'level_cty_terminates proves termination for tie-free floors of parties with votes; the link "no tie in any '
+    'constituency result => every floor key is a party with positive nationwide votes" is a decidable hypothesis there',
 ]
 EXHAUSTIVE = {'thorough': True}
 NAMES = Names(prefix='p')
@@ -647,7 +654,11 @@ def _cty_expected(case):
         if all(r.get(p, 0) >= m for p, m in floors.items()):
             least = e
             break
-    return {'floors': floors, 'drop': drop, 'least': least, 'totals': totals, 'ignored': ignored}
+    cty_tie = any(isinstance(k, tuple) for r in props.values() for k in r)
+    # a floor on a Tie object that no result can ever meet: a tie carries fewer seats than it has members
+    unreachable = any(isinstance(k, tuple) and m >= len(k) - 1 for k, m in floors.items())
+    return {'floors': floors, 'drop': drop, 'least': least, 'totals': totals, 'ignored': ignored,
+            'cty_tie': cty_tie, 'unreachable': unreachable}
 
 
 def _cty_adj_clauses(case, obs):
@@ -656,14 +667,29 @@ def _cty_adj_clauses(case, obs):
     if obs == {'err': 'AttributeError'} and case.get('overall') == 'none':
         return [('default_overall_evaluator_crashes:AttributeError', 'overall_evaluator=None')], None
     try:
+        tie_present = any(isinstance(k, tuple) for r in _cty_results(case, _cvotes(case), case['n']).values() for k in r)
+    except _Refused:
+        tie_present = False
+    if tie_present and obs == {'err': 'VotingSystemError'}:
+        # a tied seat has no owner, so there is no minimum to level against: a declared refusal is a report
+        return [], None
+    try:
         exp = _cty_expected(case)
     except _Refused as x:
         if obs == {'err': x.name}:
             return [], None
         return [('unexpected_result_on_refusal', f'evaluator refuses with {x.name}, adjuster gave {obs}')], None
     if isinstance(obs, dict):
-        if obs.get('err') == 'FuelExhausted' and exp['least'] is None:
+        if exp['cty_tie'] and obs.get('err') == 'VotingSystemError':
+            # a tied seat has no owner, so there is no minimum to level against: a declared refusal is a report
             return [], None
+        if obs.get('err') == 'FuelExhausted' and exp['least'] is None:
+            if any(isinstance(k, tuple) for k in exp['floors']):
+                # the property promises a reported non-negative adjustment; with a floor on a Tie object the loop has
+                # no reason to end (certainly not when the floor is at least the number of tie members)
+                return [('does_not_terminate', f'no adjustment after {case["fuel"]} enlargements; floors {exp["floors"]}'
+                         + (' (a tie floor that no result can meet)' if exp['unreachable'] else ''))], None
+            return [], None          # tie-free floors: the loop ends (level_cty_terminates), only the harness bound was hit
         return [('unexpected_error:' + str(obs.get('err')), str(obs))], None
     if not isinstance(obs, int) or obs < 0:
         return [('adj_negative', str(obs))], None
@@ -1044,6 +1070,10 @@ def _post_tags(case):
             return
         if exp['drop'] > 0:
             t.append('party_outside_tier')
+        if exp['cty_tie']:
+            t.append('cty_tie_in_constituency')
+            if exp['unreachable']:
+                t.append('cty_tie_floor_unreachable')
         if exp['least'] is not None and exp['least'] >= 2:
             t.append('levelling_iterations_ge2')
         if exp['least'] == 0:
@@ -1214,6 +1244,51 @@ def _directed_cross_ties(rng, count):
             if isinstance(K, Fraction):
                 c['_tags'].append('cross_party_tie_fraction')
             out.append(_finish_flat(rng, c, wrap=c.get('wrap')))
+    return out
+
+
+def _directed_cty_ties(rng, count):
+    """ties INSIDE constituencies: equal votes for the last seat of a constituency, in one or in several constituencies
+    (the same tie twice gives the tie object a floor it can never reach)"""
+    out = []
+    # the two inputs of the non-termination finding
+    out.append({'op': 'overhang_calc', 'kind': 'level_cty', 'evaluator': 'd_hondt', 'overall': 'given', 'capp': 'uniform',
+                'cvotes': [[0, [[0, '1'], [1, '1']]], [1, [[0, '1'], [1, '1']]]], 'cprev': [], 'app': [[0, 1], [1, 1]],
+                'n': 1, 'fuel': FUEL, '_tags': ['by_constituency', 'd_hondt', 'apportioner_int', 'directed']})
+    out.append({'op': 'overhang_calc', 'kind': 'level_cty', 'evaluator': 'd_hondt', 'overall': 'given', 'capp': 'uniform',
+                'cvotes': [[0, [[0, '6'], [1, '20']]], [1, [[0, '4'], [1, '4']]], [2, [[0, '1'], [1, '3']]]], 'cprev': [],
+                'app': [[0, 3], [1, 3], [2, 3]], 'n': 3, 'fuel': FUEL,
+                '_tags': ['by_constituency', 'd_hondt', 'apportioner_int', 'directed']})
+    while len(out) < count:
+        ev = rng.choice(ALL_EVALS)
+        m = rng.randint(2, 4)
+        nc = rng.randint(2, 3)
+        cvotes, app, cprev = [], [], []
+        tied_pair = rng.sample(range(m), 2)
+        for c in range(nc):
+            if c == 0 or rng.random() < 0.6:
+                b = rng.choice([1, 2, 3, 10])
+                vs = [b * rng.randint(1, 6) for _ in range(m)]
+                vs[tied_pair[0]] = vs[tied_pair[1]] = b * rng.randint(1, 3)      # two parties level
+                seats = rng.choice([1, 1, 2, 3])
+            else:
+                vs = _gen_votes(rng, m, 'mid')
+                seats = rng.randint(1, 5)
+            cvotes.append([c, [[i, num_str(v)] for i, v in enumerate(vs)]])
+            app.append([c, seats])
+            if rng.random() < 0.4:
+                cprev.append([c, [[rng.randrange(m), rng.randint(0, min(2, seats))]]])
+        n = sum(k for _, k in app)
+        c = {'op': rng.choice(['overhang_calc', 'adjusted_eval']), 'kind': 'level_cty', 'evaluator': ev, 'overall': 'given',
+             'capp': 'fixed', 'cvotes': cvotes, 'cprev': cprev, 'app': app, 'n': n, 'fuel': FUEL,
+             '_tags': ['by_constituency', ev, 'directed']}
+        if c['op'] == 'adjusted_eval':
+            c['final'] = ev
+            c['alloc'] = ev if ev != 'hare_lr' else 'sainte_lague'
+            c['wrap'] = rng.choice(['none', 'multistage'])
+            if c['wrap'] != 'none':
+                c['_tags'] += ['multistage_wrapped', 'multistage_depth2']
+        out.append(c)
     return out
 
 
@@ -1398,6 +1473,7 @@ def generate(rng, tier):
     cases += _directed_scaled_ties(rng, k)
     cases += _directed_cross_ties(rng, 2 * k)
     cases += _directed_zero_and_seatless(rng, k)
+    cases += _directed_cty_ties(rng, k)
     cases += _directed_small_houses(rng, k)
     cases += _directed_wasted_votes(rng, k + 12)
     cases += _directed_sequences(rng, k)
